@@ -20,6 +20,7 @@ inductive Err where
   | parseException  -- ParseException (empty_exception=True and an empty cell)
   | noSection       -- iniparser.NoSectionError
   | noOption        -- iniparser.NoOptionError
+  | keyError        -- KeyError (IniConfigFile.set on an absent section)
   deriving DecidableEq, Repr
 
 /-! ### Python `str` primitives -/
